@@ -416,3 +416,39 @@ Lemma half_open_free_admits c now s :
   s_st s = HALF_OPEN -> s_probe s = false ->
   fst (sallow c now s) = KDecision true HALF_OPEN None /\ s_probe (snd (sallow c now s)) = true.
 Proof. intros S P. unfold sallow. rewrite S, P. simpl. auto. Qed.
+
+(** ---- invariants lifted to every reachable state of the specification ---- *)
+Lemma epoch_inv_run c : forall h s, epoch_inv s -> epoch_inv (snd (srun c s h)).
+Proof.
+  induction h as [|x r IH]; intros s I; [exact I|].
+  cbn [srun]. destruct (sstep c s x) as [o s'] eqn:E.
+  specialize (IH s'). destruct (srun c s' r) as [os sf] eqn:R. cbn [snd] in *.
+  apply IH. replace s' with (snd (sstep c s x)) by (rewrite E; reflexivity). apply epoch_inv_step, I.
+Qed.
+Lemma epoch_inv_reachable c h : epoch_inv (snd (srun c sinit h)).
+Proof. apply epoch_inv_run. unfold epoch_inv, sinit; simpl. congruence. Qed.
+
+Definition shape_inv (s : sst) : Prop :=
+  (s_probe s = true -> s_st s = HALF_OPEN) /\ (s_st s <> CLOSED -> s_opened_at s <> None).
+Lemma shape_inv_step c s x : shape_inv s -> shape_inv (snd (sstep c s x)).
+Proof.
+  intros [P O]. destruct x as [now op]. unfold sstep, shape_inv in *; cbn [fst snd].
+  destruct op as [| |k| |]; cbn [snd];
+    unfold sallow, ssuccess, sfailure, scancel;
+    destruct (s_st s) eqn:S; destruct (s_probe s) eqn:Pb;
+    repeat match goal with
+           | |- context[if ?b then _ else _] => destruct b
+           end;
+    cbn; rewrite ?S, ?Pb; split; intros; try congruence;
+    try (apply O; congruence); try (exfalso; assert (s_st s = HALF_OPEN) by (apply P; congruence); congruence).
+  all: exfalso; discriminate (P eq_refl).
+Qed.
+Lemma shape_inv_run c : forall h s, shape_inv s -> shape_inv (snd (srun c s h)).
+Proof.
+  induction h as [|x r IH]; intros s I; [exact I|].
+  cbn [srun]. destruct (sstep c s x) as [o s'] eqn:E.
+  specialize (IH s'). destruct (srun c s' r) as [os sf] eqn:R. cbn [snd] in *.
+  apply IH. replace s' with (snd (sstep c s x)) by (rewrite E; reflexivity). apply shape_inv_step, I.
+Qed.
+Lemma shape_inv_reachable c h : shape_inv (snd (srun c sinit h)).
+Proof. apply shape_inv_run. unfold shape_inv, sinit; simpl. split; congruence. Qed.
